@@ -2,6 +2,7 @@ import RPVerif.Lemmas.TmgrSched
 import RPVerif.Lemmas.RRBalance
 import RPVerif.Lemmas.BFUsage
 import RPVerif.Lemmas.BFConserve
+import RPVerif.Gen.TmgrSched
 
 /-!
 # C12 — Each task is bound to exactly one eligible pilot
@@ -263,5 +264,27 @@ theorem C12_bf_once (c : BFCfg) (execVal : Nat) (ops : List Op) (s : S) (a : Nat
     ∨ (count a (fwdUids (bfRun c execVal s ops).2) = 0 ∧ count a (held (bfRun c execVal s ops).1) = 1) := by
   have := C12_bf_conservation c execVal ops s a (by omega)
   omega
+
+/-! ## a callback handled by another thread while a pass hands its tasks on -/
+
+/-- **overlapping callbacks**: with the code as it is (`Gen.bfWritesPoolInPass`: the pass replaces the wait pool by
+    the remainder inside the lock section that read it), a callback another thread handles while the pass hands its
+    placed tasks on finds exactly the state the pass leaves - it does what it would do after the pass, so the
+    theorems over callback histories cover this interleaving too -/
+theorem C12_bf_overlap (c : BFCfg) (execVal : Nat) (s : S) (op : Op) :
+    bfStep c execVal (bfVisibleAtHandOver Gen.bfWritesPoolInPass c s) op = bfStep c execVal (bfSchedule c s).1 op := by
+  have e : Gen.bfWritesPoolInPass = true := by decide
+  rw [e]; rfl
+
+/-- the lock section matters: were the pool written back after the hand-over, a second pass over what is visible
+    in between would forward the task the first pass has just placed once more (to the second pilot) -/
+def overlapWitness : S :=
+  { pilots := [⟨0, .added, some 4, true, 1, 2, 0, [], []⟩, ⟨1, .added, some 4, true, 1, 2, 0, [], []⟩], pids := [0, 1],
+    wait := [⟨7, none, 2⟩] }
+
+theorem C12_bf_overlap_witness :
+    (bfSchedule ⟨4, 4, 200⟩ overlapWitness).2 = [.fwd 7 0]
+    ∧ (bfSchedule ⟨4, 4, 200⟩ (bfVisibleAtHandOver false ⟨4, 4, 200⟩ overlapWitness)).2 = [.fwd 7 1]
+    ∧ (bfSchedule ⟨4, 4, 200⟩ (bfVisibleAtHandOver true ⟨4, 4, 200⟩ overlapWitness)).2 = [] := by decide
 
 end RPVerif.C12
